@@ -379,10 +379,11 @@ def finish(res, level='exploration', rule='', assumptions=(), min_cells=1):
         'coverage': cov, 'assumptions': list(assumptions), 'wall_s': round(time.time() - res.t0, 2),
         'violations': len(viol_lines),
     }
-    os.makedirs(os.path.join(VERIF, 'evidence'), exist_ok=True)
-    tmp = os.path.join(VERIF, 'evidence', prop + '.json.tmp')
+    evdir = os.environ.get('VERIF_EVIDENCE_DIR') or os.path.join(VERIF, 'evidence')   # seeded-change runs write elsewhere
+    os.makedirs(evdir, exist_ok=True)
+    tmp = os.path.join(evdir, prop + '.json.tmp')
     json.dump(ev, open(tmp, 'w'), indent=1)
-    os.replace(tmp, os.path.join(VERIF, 'evidence', prop + '.json'))
+    os.replace(tmp, os.path.join(evdir, prop + '.json'))
     for l in lines:
         print(l)
     for l in viol_lines:
